@@ -159,6 +159,38 @@ CHECKS = {
              "violation); Spec of release/acquire is a ~100-line hand rendering; the 1e9 spin cap (starved waiter returns "
              "failure) and double limit reads in can_parse are discussed in DESIGN.md, not exhibited."),
 
+    "C14": dict(
+        technique="Lean 4 proof over a model of url_pattern_component (shortcut classification, fast_test/fast_match, the "
+                  "eight-component conjunction) with the regex provider as a lawful parameter; differential run of every "
+                  "pattern against its forced-REGEXP twin (guarded hook) and of test() against exec()",
+        text="Theorems (Props/C14.lean): for any provider whose isMatch agrees with search, fast_test = fast_match.isSome for "
+             "every component type, hence test() = exec().has_value over the eight components; for a provider lawful on the "
+             "three anchored shapes the EMPTY/EXACT/WILDCARD shortcuts return exactly what the generated regex returns, with "
+             "the same name list; EXACT is never chosen under ignoreCase. On the implementation: generated patterns (part "
+             "grammar, init dictionaries, constructor strings, ignoreCase) x inputs (strings with/without base, dictionaries): "
+             "test()==exec(), reported inputs == the parsed URL's components, and the pattern compiled with the "
+             "ADA_URL_ADA_VERIF hook that disables the shortcuts gives identical answers, groups, names, pattern strings.",
+        design_ref="DESIGN.md §5 C14", category="proof",
+        note="partial: the regular-expression engine is a parameter of the model (laws stated, std::regex used for the run); "
+             "the part-list parser and regex generator are exercised, not modelled"),
+
+    "C15": dict(
+        technique="Lean 4: URL Pattern Standard canonicalisation callbacks defined over the Lean Spec of the URL parser "
+                  "(Spec/Pattern.lean) as the oracle; byte-class theorems for char_class_table regenerated from the source; "
+                  "differential run on generated literal values + WPT URLPattern corpus",
+        text="Theorems (Props/C15.lean): CHAR_SCHEME = the Standard's scheme code points; every CHAR_SIMPLE_HOSTNAME byte is "
+             "lower-case/digit/-/. (unchanged by lower-casing and decoding, not forbidden); every CHAR_SIMPLE_PATHNAME byte is "
+             "outside the path encode set and none of . % \\ ? # tab LF CR, hence the path encoder and tab/newline removal are "
+             "the identity on simple path names; the port canonicaliser's lexicographic rule is numeric comparison. On the "
+             "implementation: for literal values of every component (alone, combined, with baseURL) construction fails iff "
+             "the Standard's canonicalisation (run by the Lean driver) fails, and each pattern string is the escaped canonical "
+             "form, including default-port elision, the special-scheme pathname choice and base-URL inheritance; every "
+             "encodable WPT URLPattern vector is replayed.",
+        design_ref="DESIGN.md §5 C15", category="proof",
+        note="partial: the constructor-string parser / tokenizer / 'process a URLPatternInit' are transcribed in the Python "
+             "expectation for literal values and exercised through WPT, not modelled in Lean; the hostname callback's dummy "
+             "URL is taken to be special (WPT); vectors needing ECMAScript v-mode regex semantics are engine-dependent"),
+
     "C17": dict(
         technique="Lean 4: decide over the C-API function table regenerated from src/ada_c.cpp and ada_c.h (guards, neutral "
                   "defaults, declared = defined, delegates); lock-step C handle vs C++ object under ASan/LSan",
@@ -245,7 +277,7 @@ def main():
             "guard": "ADA_URL_ADA_VERIF",
             "enable": "checks compile /repo/src/ada.cpp into the harness with -DADA_URL_ADA_VERIF=1 -fno-access-control",
             "baseline_off_cmd": "cmake --build /repo/_build -j16 -- -k 0; ctest --test-dir /repo/_build -j8 --timeout 900",
-            "source_commits": [],
+            "source_commits": ["b103ce8", "179f014"],
             "add_only": True,
         },
         "engines": [{
